@@ -519,6 +519,14 @@ def run(ctx):
                'the bare-macro post-space rule changed: it is applied on %s'
                % ([(unparse(t_), pol) for t_, pol in atomic_facts(ps[0])] if ps else 'no path'),
                construct='nodelist_to_text: bare-macro post-space')
+    if ps:
+        v_ = ps[0].value
+        whole = isinstance(v_, ast.Attribute) and v_.attr == 'macro_post_space' and isinstance(ps[0].op, ast.Add)
+        ctx.decide('R03h', whole, m, ps[0], 'the post-space of the bare macro is re-inserted whole',
+                   'nodelist_to_text re-inserts %s, not the macro\'s post-space as it stands in the source: under '
+                   '\'based-on-source\' (and in formulas under the policies that keep source spacing there) two blanks or a '
+                   'line break plus indentation after a macro name come out as something else than what the source has'
+                   % short(v_, 60), construct='nodelist_to_text: bare-macro post-space value')
     bm = meths.get('_is_bare_macro_node')
     if bm is None:
         raise AnalysisError('anchor vanished: _is_bare_macro_node')
@@ -715,6 +723,13 @@ def run(ctx):
                      'on what the process rendered before (an accent remembered per base letter, a spec remembered per name) '
                      '(C08 R08k)', 1)
     _core.run_proxied(ctx, _c08, 'R03s', ('R08k',))
+
+    ctx.rule('R03u', 'the token reader decides "this white space contains a paragraph break" in one way -- at least two '
+                     'newlines -- at every site, the post-space of a comment included: a comment followed by three newlines is '
+                     'still followed by a paragraph break, which latex2text renders as exactly one blank line under every '
+                     'policy (C02 R02y)', 2)
+    from . import c02 as _c02
+    _core.run_proxied(ctx, _c02, 'R03u', ('R02y',))
 
     # ---- R03t: the policy dictionary handed out by the preset parser is not edited by its callers
     ctx.rule('R03t', '_parse_strict_latex_spaces_dict() returns the module-level preset tables themselves (no copy) for the named '
